@@ -115,22 +115,25 @@ def model_stage(ctx):
 
 def run(ctx):
     q = ctx.quick
-    model_stage(ctx)
+    if os.environ.get("VERIF_C17_SKIP_MODEL") != "1":      # development only (mutation testing of /repo
+        model_stage(ctx)                                   # code: the model stage does not read /repo)
 
     hook = h4_present()
     b = vlib.harness_bin("c17", ("hooks",) if hook else ())
     ctx.cov["hook_H4"] = "present: concrete cursor invariants validated" if hook else \
         "absent: cursor-invariant clause skipped (apply hooks/H4-position-cursors.patch)"
     total = 0
-    rounds = [(0, 270, 70, 1, 1500, 60)] if q else \
-             [(0, 1800, 120, 3, 6000, 400), (1, 1800, 60, 2, 3000, 400)]
-    for (k, tables, queries, big, bigq, yaml) in rounds:
-        tp = ctx.path("trace-%d.ndjson" % k)
-        rc, out, wall = vlib.sh([b, "record", tp, "seed=%d" % (ctx.seed + k), "tables=%d" % tables,
+    # (name, mode, seed offset, tables, queries, big, bigq, yaml)
+    rounds = [("main", "main", 0, 270, 70, 1, 400, 40), ("f3", "f3", 1, 45, 40, 0, 0, 12)] if q else \
+             [("main", "main", 0, 1800, 120, 3, 3000, 300), ("main2", "main", 2, 1800, 60, 2, 1500, 300),
+              ("f3", "f3", 1, 300, 60, 0, 0, 60)]
+    for k, (name, mode, so, tables, queries, big, bigq, yaml) in enumerate(rounds):
+        tp = ctx.path("trace-%s.ndjson" % name)
+        rc, out, wall = vlib.sh([b, "record", tp, "mode=" + mode, "seed=%d" % (ctx.seed + so), "tables=%d" % tables,
                                  "queries=%d" % queries, "big=%d" % big, "bigq=%d" % bigq, "yaml=%d" % yaml],
                                 timeout=900)
         info = json.loads(out.strip().splitlines()[-1])
-        ctx.stage("record %d" % k, wall, **info)
+        ctx.stage("record " + name, wall, **info)
         if bool(info.get("hook")) != hook:
             raise vlib.ToolError("harness hook flag %s does not match repo (H4 present: %s)" % (info.get("hook"), hook))
         evs = vlib.read_ndjson(tp)
